@@ -652,7 +652,7 @@ package tacquito
 
 //@ func (s *Server) Serve(ctx context.Context, listener DeadlineListener) (err error)
 //@   requires s != nil && s.loggerProvider != nil && s.SecretProvider != nil && ctx != nil && listener != nil && !s.proxy
-//@   modifies s.waitGroup.active, ghost.gauge, ghost.wgAdds, ghost.spawned, ghost.lclosed, ghost.waited
+//@   modifies s.waitGroup.active, ghost.gauge, ghost.wgAdds, ghost.spawned, ghost.lclosed, ghost.waited, ghost.sync
 //@   ensures[C17] ghost.lclosed == old(ghost.lclosed) + 1 && ghost.waited == old(ghost.waited) + 1
 //@   ensures[C17] ghost.wgAdds - old(ghost.wgAdds) == ghost.spawned - old(ghost.spawned)
 //@   loop 1 invariant[C17] ghost.wgAdds - old(ghost.wgAdds) == ghost.spawned - old(ghost.spawned)
